@@ -77,7 +77,7 @@ def run(ctx):
                 chk.instance("C18/R1", "%s: `%s` (%s) is live across %s" % (fn, nm, T.short(ty, 1), what), b.name, loc_of(ap["sp"]),
                              holds=False, key="C18/R1 %s %s live-across %s" % (fn, T.short(ty.split("<")[0], 1), what),
                              detail="dropping the future at this suspension point destroys the value")
-    chk.floor("C18/R1 suspension points analysed", n_y, 8)
+    chk.floor("C18/R1 suspension points analysed", n_y, 5)
     # R2: no await of a future documented as not cancel-safe on the receive path
     NOT_CANCEL_SAFE = ("AsyncReadExt::read_exact", "AsyncReadExt::read_to_end", "AsyncReadExt::read_to_string",
                        "AsyncBufReadExt::read_line", "AsyncBufReadExt::read_until", "AsyncWriteExt::write_all",
@@ -108,6 +108,7 @@ def run(ctx):
                                  key="C18/R3 Session::recv guard-escapes")
     r4_table_untouched_by_drop(chk, fx)
     r5_survivors_find_parked_replies(chk, fx)
+    r6_independent_of_other_holders(chk, fx)
 
 
 REMOVERS = ("HashMap::<K, V, S, A>::remove", "HashMap::<K, V, S, A>::remove_entry", "HashMap::<K, V, S, A>::clear", "HashMap::<K, V, S, A>::retain",
@@ -157,3 +158,40 @@ def r5_survivors_find_parked_replies(chk, fx):
     from .c15 import _Rename
     from . import c05
     c05.r4_r5_locks(_Rename(chk, "C05/R", "C18/R5:C05/R"), fx)
+
+
+# ---------------------------------------------------------------------------------------------
+REFCOUNT_QUERIES = ("Arc::<T, A>::strong_count", "Arc::<T, A>::weak_count", "Arc::<T>::strong_count", "Arc::<T>::weak_count", "Weak::<T, A>::upgrade", "Weak::<T>::upgrade",
+                    "Weak::<T, A>::strong_count", "Weak::<T, A>::weak_count", "Arc::<T, A>::try_unwrap", "Arc::<T, A>::into_inner", "Arc::<T, A>::get_mut",
+                    "Arc::<T, A>::is_unique", "Arc::<T>::try_unwrap", "Arc::<T>::get_mut", "Arc::<T>::into_inner", "Rc::<T>::strong_count", "Rc::<T, A>::strong_count")
+
+
+def r6_independent_of_other_holders(chk, fx):
+    """What a reply future does must not depend on which *other* futures (or the session value itself) are still alive — they are
+    dropped at their owners' whim.  (a) Session::recv and Session::rpc ask no reference count and upgrade no weak reference: "nobody
+    else holds the transport" is not "no other request is outstanding" (an abandoned request's reply is still on its way), and a
+    future that only weakly holds the receive handle dies with whoever held the last strong one.  (b) the reply future owns (Arc) the
+    table and the receive handle it is given.  (c) the reply read off the transport is delivered through the table under its own id
+    (C05/R2), whoever else is alive."""
+    n = 0
+    for name, b in sorted(fx.mir.items()):
+        if b.crate != "netconf" or not name.startswith((SESSION + "::recv", SESSION + "::rpc")) or "::tests::" in name:
+            continue
+        n += 1
+        for c in b.calls():
+            if c.macro:
+                continue
+            if c.is_fn(*REFCOUNT_QUERIES) or T.short(T.strip_generics(c.name()), 2) in ("Arc::strong_count", "Arc::weak_count", "Weak::upgrade", "Arc::try_unwrap", "Arc::get_mut",
+                                                                                         "Arc::into_inner", "Weak::strong_count"):
+                chk.instance("C18/R6", "%s does not ask who else holds the shared state" % T.short(T.strip_generics(name), 2), name, c.loc(), holds=False,
+                             key="C18/R6 %s observes-other-holders %s" % (T.short(T.strip_generics(name.split("::{closure")[0]), 2), T.short(T.strip_generics(c.name()), 2)),
+                             detail="the outcome depends on which other reply futures / the session are alive: dropping one of them changes what this one does")
+    chk.floor("C18/R6 Session::recv / rpc bodies", n, 3)
+    it = fx.fn_item(SESSION + "::recv")
+    weak = [t for t in (it.get("inputs") or []) if "Weak<" in t]
+    shared = [t for t in (it.get("inputs") or []) if "Arc<" in t]
+    chk.instance("C18/R6", "the reply future owns the table and the receive handle (%d Arc parameters, %d Weak)" % (len(shared), len(weak)), it["qdef"], loc_of(it.get("sp")),
+                 holds=len(shared) >= 2 and not weak, key="C18/R6 Session::recv holds-shared-state-weakly")
+    from .c15 import _Rename
+    from . import c05
+    c05.r2_own_slot(_Rename(chk, "C05/R2", "C18/R6:C05/R2"), fx)
